@@ -87,6 +87,12 @@ def fraction_values(ctx, r, n, dens):
                 elif dec(back.GetNumber()) + Fr(back.GetFraction().numerator) / Fr(back.GetFraction().denominator) != exact:
                     ctx.violation("format-then-parse-denotes-another-amount", dict(case, text=s, parsed=repr(back)), replay=case)
                 ctx.count("format/parse round trips")
+                # what the parser returned is the caller's: editing it must not change what the same text means next time
+                back.SetNumber(987654)
+                back.GetFraction().numerator = 11
+                third = FractionValue.CreateFromString(s)
+                if not (third == fv) or third is back:
+                    ctx.violation("parse-depends-on-an-earlier-parse-of-the-same-text", dict(case, text=s, parsed_again=repr(third)), replay=case)
             except Exception as e:
                 ctx.violation("parse-of-formatted-value-raised:%s" % type(e).__name__, dict(case, text=s, error=str(e)[:120]), replay=case)
             # the localized string in the C locale is the same text
